@@ -112,10 +112,15 @@ class SessRun(Run):
                 return conn
 
             def no_wait_release(self, connection):
-                c = next((d for d, o in run.conn_of.items() if o is connection), 0)
+                owner = next((d for d, o in run.conn_of.items() if o is connection), 0)
+                # who gives the connection back: the client whose task is running (a session that hands back a
+                # connection another client is still using must show up as that, not as the owner's own release)
+                c = run.task_client.get(asyncio.current_task(), 0) or owner
+                if c != owner and owner:
+                    run.log(e='foreign_rel', c=c, owner=owner, x=run.cid(connection))
                 x = run.cid(connection)
                 cl = bool(connection.closed())
-                run.conn_of.pop(c, None)
+                run.conn_of.pop(owner, None)
                 run.nrel += 1
                 r = run.nrel
                 before = set(getattr(self, '_release_tasks', ()))
